@@ -35,6 +35,7 @@ PROP_FUNCS = {
     'C16': ['since_window', 'line_date_is_valid', 'apply_to_line'],
     'C18': ['num_parallel_tasks'],
     'C15': ['allocations', 'allocate_next', 'add_to_store'],
+    'C07': ['apply_single'],
 }
 ALL_FUNCS = [s['name'] for s in pytolean.FUNCS]
 
